@@ -218,6 +218,36 @@ def apalache_inductive(module, tag):
                 what="inductive invariant, unbounded in N and Wd")
 
 
+def run_group(cmd, cwd, timeout, marker):
+    """run a command in its own session and make sure NOTHING it started outlives it: tlapm starts several
+    back-end provers per obligation and abandons the slower ones, which then keep a core busy for ever.
+    Afterwards the whole process group is killed, and so is any process whose command line mentions
+    `marker` (the private cache directory of this run)."""
+    import signal
+    e = dict(os.environ)
+    for k in ("CARGO_TARGET_DIR", "RUSTFLAGS", "CARGO_BUILD_TARGET_DIR", "CARGO_ENCODED_RUSTFLAGS"):
+        e.pop(k, None)
+    p = subprocess.Popen(cmd, cwd=cwd, env=e, stdout=subprocess.PIPE, stderr=subprocess.STDOUT, start_new_session=True)
+    try:
+        out, _ = p.communicate(timeout=timeout)
+    finally:
+        try:
+            os.killpg(p.pid, signal.SIGKILL)
+        except OSError:
+            pass
+        for pid in [x for x in os.listdir("/proc") if x.isdigit()]:
+            try:
+                cl = open("/proc/%s/cmdline" % pid, "rb").read().decode("utf-8", "replace")
+            except OSError:
+                continue
+            if marker in cl and int(pid) != os.getpid():
+                try:
+                    os.kill(int(pid), signal.SIGKILL)
+                except OSError:
+                    pass
+    return p.returncode, out.decode("utf-8", "replace")
+
+
 def tlaps_proof(module, tag):
     """unbounded proof with the TLA+ proof system: every obligation of spec/tlaps/<module>.tla must be discharged
     (fingerprints are not trusted: the cache directory is private to the run and removed afterwards)"""
@@ -230,8 +260,8 @@ def tlaps_proof(module, tag):
     # retry with all prover time limits stretched before calling it a failure
     for stretch in ("1", "4", "12"):
         try:
-            rc, out = run(["tlapm", "--threads", "6", "--stretch", stretch, "--cleanfp", "--cache-dir", cache, module + ".tla"],
-                          cwd=d, timeout=2400)
+            rc, out = run_group(["tlapm", "--threads", "6", "--stretch", stretch, "--cleanfp", "--cache-dir", cache, module + ".tla"],
+                                cwd=d, timeout=2400, marker=cache)
         except subprocess.TimeoutExpired:
             raise ToolError("tlapm timed out on %s" % module)
         m = re.search(r"All (\d+) obligations? proved", out)
